@@ -19,6 +19,8 @@ struct Plant {
     skip: u8,
     source: String,
     skippable: bool,
+    /// `--target-os` list of the run (empty: none given)
+    target_os: Vec<String>,
 }
 
 const LEAVES: [(&str, &str); 8] = [
@@ -95,7 +97,7 @@ fn plants(rng: &mut Rng, per_cell: usize) -> Vec<Plant> {
                         if !skippable && skip != 0 {
                             continue;
                         }
-                        v.push(Plant { construct: cname, position, depth, skip, source: format!("{BACKGROUND}{src}"), skippable });
+                        v.push(Plant { construct: cname, position, depth, skip, source: format!("{BACKGROUND}{src}"), skippable, target_os: vec![] });
                     }
                 }
             }
@@ -127,7 +129,7 @@ fn plants(rng: &mut Rng, per_cell: usize) -> Vec<Plant> {
             ])
             .collect();
         for (c, p, s, skippable) in structural {
-            v.push(Plant { construct: c, position: p, depth: 0, skip, source: format!("{BACKGROUND}{s}"), skippable });
+            v.push(Plant { construct: c, position: p, depth: 0, skip, source: format!("{BACKGROUND}{s}"), skippable, target_os: vec![] });
         }
     }
     let items: Vec<(&'static str, String)> = vec![
@@ -157,7 +159,19 @@ fn plants(rng: &mut Rng, per_cell: usize) -> Vec<Plant> {
         ("const-vec-type", "#[typeshare]\npub const VICTIM: Vec<u8> = 3;\n".into()),
     ];
     for (c, s) in items {
-        v.push(Plant { construct: c, position: "item", depth: 0, skip: 0, source: format!("{BACKGROUND}{s}"), skippable: false });
+        v.push(Plant { construct: c, position: "item", depth: 0, skip: 0, source: format!("{BACKGROUND}{s}"), skippable: false, target_os: vec![] });
+    }
+    // constructs that are unsupported only in what the target list leaves: what is shared is what is judged
+    let with_targets: Vec<(&'static str, &[&str], &str)> = vec![
+        ("unit-enum-after-target-os-filter-with-tag-and-content", &["android"], "#[typeshare]\n#[serde(tag = \"t\", content = \"c\")]\npub enum Victim { A, #[cfg(target_os = \"ios\")] B(u8), #[cfg(not(target_os = \"android\"))] C { x: u8 } }\n"),
+        ("unit-enum-after-target-os-filter-with-tag", &["android", "linux"], "#[typeshare]\n#[serde(tag = \"t\")]\npub enum Victim { A, B, #[cfg(target_os = \"ios\")] C(u8) }\n"),
+        ("unit-enum-after-target-os-filter-and-skip-with-content", &["linux"], "#[typeshare]\n#[serde(content = \"c\")]\npub enum Victim { A, #[serde(skip)] B(u8), #[cfg(any(target_os = \"ios\", target_os = \"android\"))] C { x: u8 } }\n"),
+        ("data-enum-kept-by-target-os-without-tag-and-content", &["ios"], "#[typeshare]\npub enum Victim { A, #[cfg(target_os = \"ios\")] B(u8), #[cfg(target_os = \"android\")] C }\n"),
+        ("u64-field-kept-by-target-os", &["ios", "android"], "#[typeshare]\npub struct Victim { pub a: u8, #[cfg(target_os = \"ios\")] pub b: u64, #[cfg(target_os = \"linux\")] pub c: u8 }\n"),
+        ("tuple-type-in-variant-kept-by-target-os", &["android"], "#[typeshare]\n#[serde(tag = \"t\", content = \"c\")]\npub enum Victim { A(u8), #[cfg(not(target_os = \"ios\"))] B((u8, String)), #[cfg(target_os = \"ios\")] C(u8) }\n"),
+    ];
+    for (c, t, s) in with_targets {
+        v.push(Plant { construct: c, position: "item", depth: 0, skip: 0, source: format!("{BACKGROUND}{s}"), skippable: false, target_os: t.iter().map(|x| x.to_string()).collect() });
     }
     // the annotation on the victim is spelled like users spell it: bare, through its crate path, with arguments
     for (i, p) in v.iter_mut().enumerate() {
@@ -198,11 +212,11 @@ pub fn run(ctx: &Ctx) -> (Spec, Report) {
                     continue;
                 }
                 let files = vec![SrcFile { path: "victim_crate/src/lib.rs".into(), source: p.source.clone() }];
-                let o = run_lib(&files, lang, &LangCfg::basic(lang), false, &[]);
+                let o = run_lib(&files, lang, &LangCfg::basic(lang), false, &p.target_os);
                 rep.eval(1);
                 rep.count("library_runs", 1);
                 rep.cell(format!("{}|{}|depth{}|skip{}|{}", p.construct, p.position, p.depth.min(3), p.skip, o.kind()));
-                let detail = || json!({"construct": p.construct, "position": p.position, "depth": p.depth, "skip": p.skip, "language": lang.name(), "source": p.source, "outcome": o.describe(), "output": o.single()});
+                let detail = || json!({"construct": p.construct, "position": p.position, "depth": p.depth, "skip": p.skip, "language": lang.name(), "target_os": p.target_os, "source": p.source, "outcome": o.describe(), "output": o.single()});
                 match (&o, p.skip) {
                     (LibOutcome::Panic { loc, msg, .. }, _) => rep.inconclusive("typeshare-panic (reported by C07)", json!({"loc": loc, "msg": msg, "construct": p.construct})),
                     (LibOutcome::Ok(_), 0) => rep.violate(
@@ -317,7 +331,11 @@ pub fn run(ctx: &Ctx) -> (Spec, Report) {
         let src_abs = root.join("src_root");
         let crate_dirs: Vec<String> = ["victim", "victim_crate", "aaa_first", "zzz_last"].iter().map(|c| src_abs.join(c)).filter(|d| d.is_dir()).map(|d| d.to_string_lossy().into_owned()).collect();
         let dirs: Vec<&str> = if one_by_one { crate_dirs.iter().map(|d| d.as_str()).collect() } else { vec![src_abs.to_str().unwrap()] };
-        let args = cli_args(lang, &cfg, multi, &out, &dirs);
+        let mut args = cli_args(lang, &cfg, multi, &out, &dirs);
+        if !p.target_os.is_empty() {
+            args.insert(0, format!("--target-os={}", p.target_os.join(",")));
+            rep.count("cli_runs_with_a_target_list", 1);
+        }
         let o = run_bin(BinRun { cli: &cli, args: args.clone(), env: order_env.clone(), cwd: &root, strace: Some(log.clone()), wall_limit: Duration::from_secs(30) });
         rep.eval(1);
         rep.count("cli_runs_under_strace", 1);
